@@ -134,6 +134,18 @@ Definition c03_ok (c : ccase) : bool :=
                     | OHang | OPanic => false
                     end) (cc_probes c).
 
-Definition report01 (cs : list ccase) := (indices case_mismatch cs, indices (fun c => negb (c01_ok c)) cs).
+(* Objects with production leaf sizes (1 .. 5 MiB) are too large to evaluate inside Coq: for them
+   the harness compares the bytes itself and reports, per probe, the outcome class and whether
+   the bytes were the expected ones; the model is not run (the theorems hold for every L). *)
+Record bigcase := { bg_L : N; bg_len : N; bg_put_ok : bool; bg_written_ok : bool;
+                    bg_probes : list (N * bool) }.
+Inductive xcase := Small (c : ccase) | Big (b : bigcase).
+
+Definition big_ok (b : bigcase) : bool :=
+  bg_put_ok b && bg_written_ok b && forallb (fun p => N.eqb (fst p) 0 && snd p) (bg_probes b).
+
+Definition report01 (cs : list xcase) :=
+  (indices (fun x => match x with Small c => case_mismatch c | Big _ => false end) cs,
+   indices (fun x => match x with Small c => negb (c01_ok c) | Big b => negb (big_ok b) end) cs).
 Definition report02 (cs : list ccase) := (indices put_mismatch cs, indices (fun c => negb (c02_ok c)) cs).
 Definition report03 (cs : list ccase) := (indices probes_mismatch cs, indices (fun c => negb (c03_ok c)) cs).
